@@ -8,13 +8,13 @@ META = dict(
     engines="B",
     files=FILES,
     technique="the real crc8404B is executed on exact-width bit-vector proxies (Engine B) and its output term is compared by z3 with a bit-serial CRC-16 (reflected polynomial 0x8408) reference: one-step lemma over all 2^16 x 2^8 cases, compositionality of the loop, and unrolled end-to-end equivalence",
-    level_text="Solver verdict over all 16-bit start values and all byte values for one update step (2^24 cases in one query), for the composition law crc(a||b, s) = crc(b, crc(a, s)) on symbolic strings, and end to end for every string of length 0..8 (quick) / 0..32 (thorough) with symbolic start value; result always within 16 bits; default start 0xFFFF; no final XOR.",
+    level_text="Solver verdict over all 16-bit start values and all byte values for one update step (2^24 cases in one query), for the composition law crc(a||b, s) = crc(b, crc(a, s)) on symbolic strings, and end to end for every string of length 0..8, 15..17, 31..33, 64 (quick) / 0..40, 63..65, 128, 256 (thorough) with symbolic start value; result always within 16 bits; default start 0xFFFF; no final XOR.",
     level_note="Trusted: z3 bit-vector theory, the 60-line proxy class (each operator evaluated at a width that cannot overflow; validated at start-up against Python ints on random values), the 8-line bit-serial reference. Strings longer than the unrolling are covered by the step lemma + composition law as an induction argument, not by a separate query.",
     explanation="Bounded symbolic verification: bec2file.crc8404B is called with proxy arguments (bec2file.int shadowed by identity in the checking process); the proxies build the exact z3 bit-vector term of the result; queries are discharged by z3. A deliberately wrong reference (0x8409) must be refuted (sat).",
     functions=["bec2format.bec2file.crc8404B"],
-    stubs=["bec2file.int -> identity on proxies"],
+    stubs=["bec2file.int/bytes/bytearray -> identity on proxies, int.from_bytes -> exact bit-vector concatenation", "module-level integer tables of bec2file -> z3 arrays with the same contents (table-driven rewrites stay symbolic)"],
     assumptions=[],
-    bounds=dict(quick="step lemma all (start, byte); composition for |a|,|b| <= 2; strings of length 0..8", thorough="strings of length 0..32; composition for |a|,|b| <= 4"),
+    bounds=dict(quick="step lemma all (start, byte); composition for |a|,|b| <= 2; strings of length 0..8, 15..17, 31..33, 64", thorough="strings of length 0..40, 63..65, 128, 256; composition for |a|,|b| <= 4"),
     outside=["strings longer than the unrolling except through the induction argument", "start values outside 0..0xFFFF"],
 )
 
@@ -22,9 +22,10 @@ META = dict(
 def jobs(tier, seed):
     J = [dict(name="step-lemma", kind="step", timeout=300), dict(name="range-16bit", kind="range", timeout=300), dict(name="default-start-and-no-final-xor", kind="default", timeout=300), dict(name="fact:one-byte-nonzero", kind="fact1", timeout=300), dict(name="twin:poly-8409-refuted", kind="step", wrongpoly=0x8409, expect="violated", timeout=300), dict(name="proxy-selftest", kind="selftest", timeout=300)]
     J.append(dict(name="history:same-buffer-mutated-between-calls", kind="history", timeout=300))
-    maxlen = 8 if tier == "quick" else 32
-    for n in range(0, maxlen + 1):
-        J.append(dict(name="unrolled:len%d" % n, kind="unrolled", n=n, timeout=900, cost=n + 1))
+    maxlen = 8 if tier == "quick" else 40
+    # block-size boundaries (16/32/64-byte folds of an optimised routine) are part of the quick tier as well
+    for n in list(range(0, maxlen + 1)) + ([15, 16, 17, 31, 32, 33, 64] if tier == "quick" else [63, 64, 65, 128, 256]):
+        J.append(dict(name="unrolled:len%d" % n, kind="unrolled", n=n, timeout=900 if n <= 64 else 3600, cost=n + 1))
     m = 2 if tier == "quick" else 4
     for a in range(0, m + 1):
         for b in range(0, m + 1):
@@ -80,7 +81,72 @@ def run_job(job):
                     bad += 1
         return dict(verdict="held" if bad == 0 else "inconclusive", state="SELFTEST %d mismatches" % bad, queries=1, solver_s=0.0, symbolic_dims=0, message="3000 proxy operations compared with Python ints")
 
-    b2.int = lambda x: x  # shadow of the builtin inside bec2file (checking process only)
+    # shadows of builtins inside bec2file (checking process only): int()/bytes()/bytearray() are the identity on
+    # proxies, int.from_bytes builds the exact bit-vector term, and module-level integer tables become z3 arrays so
+    # that table-driven rewrites of the routine are executed symbolically as well
+    class IntShim:
+        def __call__(self, x=0, *a):
+            return x if isinstance(x, BV) else int(x, *a)
+
+        @staticmethod
+        def from_bytes(data, byteorder="big", signed=False):
+            data = list(data)
+            if signed:
+                raise NotImplementedError("signed from_bytes on proxies")
+            if byteorder == "big":
+                data = data[::-1]
+            acc = BV.const(0)
+            for i, d in enumerate(data):
+                acc = acc | (BV.lift(d) << (8 * i))
+            return acc
+
+    class SeqShim:
+        def __init__(self, real):
+            self.real = real
+
+        def __call__(self, x=b"", *a):
+            if not isinstance(x, (bytes, bytearray, int, str)) and any(isinstance(e, BV) for e in x):
+                return list(x)
+            return self.real(x, *a)
+
+    class Table(tuple):
+        def __getitem__(self, idx):
+            if isinstance(idx, BV) and not idx.is_const():
+                if not (idx.lo >= 0 and idx.hi < len(self)) and not (BV.const(0) <= idx and idx < len(self)):
+                    raise IndexError("table index out of range")
+                if self._affine:
+                    # GF(2)-affine table (every CRC table is): T[x] = T[0] ^ XOR_i bit_i(x) * (T[1<<i] ^ T[0]);
+                    # affinity was established over all index pairs when the table was wrapped
+                    k = (len(self) - 1).bit_length()
+                    x = idx.ext(k + 1)
+                    t = z3.BitVecVal(tuple.__getitem__(self, 0), self._w)
+                    for i in range(k):
+                        c = tuple.__getitem__(self, 1 << i) ^ tuple.__getitem__(self, 0)
+                        t = t ^ z3.If(z3.Extract(i, i, x) == 1, z3.BitVecVal(c, self._w), z3.BitVecVal(0, self._w))
+                    return BV(z3.ZeroExt(1, t), min(self), max(self))
+                w = max(idx.width(), 2) if not (idx.lo >= 0 and idx.hi < 256) else 8
+                arr = self._arrs.get(w)
+                if arr is None:
+                    arr = z3.K(z3.BitVecSort(w), z3.BitVecVal(0, self._w))
+                    for i, v in enumerate(self):
+                        arr = z3.Store(arr, z3.BitVecVal(i, w), z3.BitVecVal(v, self._w))
+                    self._arrs[w] = arr
+                return BV(z3.ZeroExt(1, z3.Select(arr, idx.ext(w))), min(self), max(self))
+            if isinstance(idx, BV):
+                idx = idx.lo
+            return tuple.__getitem__(self, idx)
+
+    b2.int = IntShim()
+    b2.bytes = SeqShim(bytes)
+    b2.bytearray = SeqShim(bytearray)
+    for nm, val in list(vars(b2).items()):
+        if isinstance(val, (tuple, list)) and len(val) >= 16 and all(type(v) is int and v >= 0 for v in val):
+            t = Table(val)
+            t._w = max(max(val).bit_length(), 1)
+            t._arrs = {}
+            n_ = len(val)
+            t._affine = n_ & (n_ - 1) == 0 and all(val[a ^ b_] == val[a] ^ val[b_] ^ val[0] for a in range(n_) for b_ in range(a))
+            setattr(b2, nm, t)
 
     def real(data, start=None):
         return b2.crc8404B(data) if start is None else b2.crc8404B(data, start)
@@ -91,6 +157,22 @@ def run_job(job):
         return paths
 
     results = []
+
+    def eq_ref(out, ref):
+        """out (proxy of any width) equals the 16-bit reference term, compared at a width that truncates neither"""
+        out = BV.lift(out)
+        W = max(out.width() + 1, 18)
+        return out.ext(W) == z3.ZeroExt(W - 16, ref)
+
+    def in16(out):
+        out = BV.lift(out)
+        W = max(out.width() + 1, 18)
+        return z3.And(out.ext(W) >= 0, out.ext(W) < 65536)
+
+    def same(a, b):
+        a, b = BV.lift(a), BV.lift(b)
+        W = max(a.width(), b.width()) + 1
+        return a.ext(W) == b.ext(W)
 
     def decide(name, pc, claim, vars_):
         r, m = bv.check(pc, claim)
@@ -108,12 +190,12 @@ def run_job(job):
         for pc, (s, b, out) in run(fn):
             ref = ref_crc_z3(z3, [z3.Extract(7, 0, b.ext(9))], z3.Extract(15, 0, s.ext(17)), job.get("wrongpoly", 0x8408))
             if kind == "step":
-                decide("step", pc, out.ext(18) == z3.ZeroExt(2, ref), dict(start=s, byte=b))
+                decide("step", pc, eq_ref(out, ref), dict(start=s, byte=b))
             elif kind == "range":
-                decide("range", pc, z3.And(out.ext(40) >= 0, out.ext(40) < 65536), dict(start=s, byte=b))
+                decide("range", pc, in16(out), dict(start=s, byte=b))
                 # the interval computed by the proxy must not be narrower than reality (sanity)
             else:
-                decide("one-byte-nonzero", pc + [s.ext(17) == 0xFFFF], out.ext(40) != 0, dict(start=s, byte=b))
+                decide("one-byte-nonzero", pc + [s.ext(17) == 0xFFFF], z3.Not(same(out, 0)), dict(start=s, byte=b))
     elif kind == "default":
         sig = inspect.signature(b2.crc8404B)
         dflt = sig.parameters["start_value"].default
@@ -124,7 +206,7 @@ def run_job(job):
 
         for pc, (d, out) in run(fn):
             ref = ref_crc_z3(z3, [z3.Extract(7, 0, x.ext(9)) for x in d], z3.BitVecVal(0xFFFF, 16))
-            decide("default-start", pc, out.ext(18) == z3.ZeroExt(2, ref), {"d0": d[0], "d1": d[1]})
+            decide("default-start", pc, eq_ref(out, ref), {"d0": d[0], "d1": d[1]})
         results.append(("default-literal", "unsat" if dflt == 0xFFFF else "sat", {"default": dflt}))
         # empty input returns the start value unchanged (no final XOR)
         def fn2():
@@ -133,7 +215,7 @@ def run_job(job):
 
         for pc, (s, out) in run(fn2):
             out = BV.lift(out)
-            decide("empty-returns-start", pc, out.ext(18) == s.ext(18), dict(start=s))
+            decide("empty-returns-start", pc, same(out, s), dict(start=s))
     elif kind == "unrolled":
         n = job["n"]
 
@@ -146,7 +228,7 @@ def run_job(job):
             ref = ref_crc_z3(z3, [z3.Extract(7, 0, x.ext(9)) for x in d], z3.Extract(15, 0, s.ext(17)))
             vars_ = dict(start=s)
             vars_.update({"d%d" % i: x for i, x in enumerate(d)})
-            decide("unrolled%d" % n, pc, z3.And(out.ext(40) == z3.ZeroExt(24, ref), out.ext(40) >= 0, out.ext(40) < 65536), vars_)
+            decide("unrolled%d" % n, pc, z3.And(eq_ref(out, ref), in16(out)), vars_)
     elif kind == "history":
         # the result depends on the current content of the buffer only: same (mutable) list object,
         # same start value, changed in place between two calls, other calls in between
@@ -165,7 +247,7 @@ def run_job(job):
             st = z3.Extract(15, 0, s_.ext(17))
             ref2 = ref_crc_z3(z3, [z3.Extract(7, 0, x.ext(9)) for x in buf[:3]], st)
             ref3 = ref_crc_z3(z3, [z3.Extract(7, 0, x.ext(9)) for x in buf], st)
-            decide("history", pc, z3.And(r2.ext(40) == z3.ZeroExt(24, ref2), r3.ext(40) == z3.ZeroExt(24, ref3)), dict(start=s_))
+            decide("history", pc, z3.And(eq_ref(r2, ref2), eq_ref(r3, ref3)), dict(start=s_))
     elif kind == "compose":
         a, b = job["a"], job["b"]
 
@@ -181,7 +263,7 @@ def run_job(job):
             vars_ = dict(start=s)
             vars_.update({"a%d" % i: x for i, x in enumerate(da)})
             vars_.update({"b%d" % i: x for i, x in enumerate(db)})
-            decide("compose", pc, whole.ext(40) == parts.ext(40), vars_)
+            decide("compose", pc, same(whole, parts), vars_)
     else:
         raise ValueError(kind)
 
